@@ -15,7 +15,7 @@ EXTENDS Integers, Sequences, FiniteSets, TLC, Bytes
 (* file's mapping is allowed only inside a slot, and only as the symbol that slot binds.           *)
 SlotOffs(seg, S) == {[o |-> ToNat(SubD(S[k].a, seg.va)), name |-> S[k].name, sym |-> S[k].sym] : k \in
                        {k \in DOMAIN S : LeqD(seg.va, S[k].a) /\ FitsNat(SubD(S[k].a, seg.va)) /\ ToNat(SubD(S[k].a, seg.va)) < Len(seg.mem)}}
-BadCell(j, seg, cells, exts, SO, aw, i) ==        \* "" if cell i of segment j is acceptable
+BadCell(j, seg, cells, exts, SO, aw, dev, devname, i) ==        \* "" if cell i of segment j is acceptable
   LET cover  == {s \in SO : s.sym # 0 /\ s.o < i /\ i <= s.o + aw}
       cover0 == {s \in SO : s.sym = 0 /\ s.o < i /\ i <= s.o + aw} IN
   IF cells[i] = seg.mem[i] THEN ""
@@ -23,21 +23,26 @@ BadCell(j, seg, cells, exts, SO, aw, i) ==        \* "" if cell i of segment j i
          IF cells[i] = -3 /\ \E s \in cover : \E e \in DOMAIN exts :
                 exts[e].seg = j - 1 /\ exts[e].off = s.o /\ exts[e].name = s.name THEN ""
          ELSE IF cells[i] = -3 THEN "SlotHoldsOtherSymbol" ELSE "SlotClobbered"
+  ELSE IF dev # <<>> /\ cells[i] = dev[i] THEN devname           \* exactly what the named known deviation produces
   ELSE IF cells[i] = -3 /\ cover0 # {} THEN "ExternalSymbolAtRelocationWithoutSymbol"
   ELSE IF cells[i] = -3 THEN "ExternalSymbolOutsideRelocationSlots"
   ELSE IF i <= seg.fs THEN (IF cells[i] = -1 THEN "FileByteUnmapped" ELSE "FileByte")
   ELSE (IF cells[i] = -1 THEN "BssUnmapped" ELSE "BssNotZero")
-SegVerdict(j, seg, cells, exts, S, aw) ==
+SegVerdict(j, seg, cells, exts, S, aw, dev, devname) ==
   IF Len(cells) # Len(seg.mem) THEN [clause |-> "Length", seg |-> j - 1, off |-> 0, got |-> Len(cells), want |-> Len(seg.mem)]
   ELSE LET D  == {i \in 1..Len(cells) : cells[i] # seg.mem[i]}
            SO == SlotOffs(seg, S)
-           B  == {i \in D : BadCell(j, seg, cells, exts, SO, aw, i) # ""}
+           B  == {i \in D : BadCell(j, seg, cells, exts, SO, aw, dev, devname, i) # ""}
+           \* a deviation is attributed to the known one only if every offending byte is explained by it
+           N  == {i \in B : BadCell(j, seg, cells, exts, SO, aw, dev, devname, i) # devname}
        IN IF B = {} THEN [clause |-> "ok", seg |-> j - 1, off |-> 0, got |-> 0, want |-> 0]
-          ELSE LET i == CHOOSE i \in B : \A k \in B : i <= k
-               IN [clause |-> BadCell(j, seg, cells, exts, SO, aw, i), seg |-> j - 1, off |-> i - 1, got |-> cells[i], want |-> seg.mem[i]]
-ImageVerdicts(I, obs, exts, S, aw) ==              \* one verdict per segment
+          ELSE LET C == IF N # {} THEN N ELSE B
+                   i == CHOOSE i \in C : \A k \in C : i <= k
+               IN [clause |-> BadCell(j, seg, cells, exts, SO, aw, dev, devname, i), seg |-> j - 1, off |-> i - 1, got |-> cells[i], want |-> seg.mem[i]]
+ImageVerdicts(I, obs, exts, S, aw, DevI, devname) ==     \* one verdict per segment; DevI[j]: the cells a named known
+                                                         \* deviation would leave in segment j (<<>>: none)
   IF Len(obs) # Len(I) THEN << [clause |-> "SegmentCount", seg |-> 0, off |-> 0, got |-> Len(obs), want |-> Len(I)] >>
   ELSE Tup([j \in 1..Len(I) |->
          IF ~EqD(obs[j].va, I[j].va) THEN [clause |-> "SegmentAddress", seg |-> j - 1, off |-> 0, got |-> 0, want |-> 0]
-         ELSE SegVerdict(j, I[j], obs[j].cells, exts, S, aw)])
+         ELSE SegVerdict(j, I[j], obs[j].cells, exts, S, aw, IF DevI = <<>> THEN <<>> ELSE DevI[j], devname)])
 =============================================================================
